@@ -211,13 +211,80 @@ func Evaluate(env *core.Env, ex *fhirpath.Expression, in []fhir.Resource, eopts 
 	return Res{Kind: "value", Items: RenderAll(c), Raw: c}
 }
 
+// reuse holds, per worker process, the first compiled expression of every source compiled without options.
+// A later Eval of the same source evaluates that older expression too: a compiled expression that keeps state
+// from earlier evaluations (memoised variables, promoted literals, per-node lookup caches) answers differently
+// from the fresh one.
+var reuse = map[string]*fhirpath.Expression{}
+
+// ReuseChecked counts the comparisons made (for evidence).
+var ReuseChecked int
+
+func timeDependent(src string) bool {
+	return strings.Contains(src, "now()") || strings.Contains(src, "today()") || strings.Contains(src, "timeOfDay()")
+}
+
 // Eval compiles and evaluates.
 func Eval(env *core.Env, src string, in []fhir.Resource, copts []fhirpath.CompileOption, eopts []fhirpath.EvaluateOption) Res {
 	ex, r := Compile(env, src, copts...)
 	if ex == nil {
 		return r
 	}
-	return Evaluate(env, ex, in, eopts...)
+	res := Evaluate(env, ex, in, eopts...)
+	if len(copts) == 0 && !res.IsPanic() && !timeDependent(src) {
+		if old, ok := reuse[src]; ok {
+			r2 := Evaluate(env, old, in, eopts...)
+			ReuseChecked++
+			env.Cover("reused-expression-compared")
+			if !Same(res, r2) {
+				env.Violatef(env.Property+"/reused-expression-differs/"+shapeOf(src), "`%s`: a freshly compiled expression gives %s, the expression compiled and evaluated earlier in this process gives %s on the same input", src, trunc(res.Short(), 200), trunc(r2.Short(), 200))
+			}
+		} else {
+			if len(reuse) > 40000 {
+				reuse = map[string]*fhirpath.Expression{}
+			}
+			reuse[src] = ex
+		}
+	}
+	return res
+}
+
+func trunc(s string, n int) string {
+	if len(s) > n {
+		return s[:n] + "…"
+	}
+	return s
+}
+
+// shapeOf abstracts a source to its function names / operator words (for signatures).
+func shapeOf(src string) string {
+	var out []string
+	seen := map[string]bool{}
+	tok := ""
+	flush := func(next byte) {
+		if tok != "" && (next == '(' || tok == "and" || tok == "or" || tok == "xor" || tok == "implies" || tok == "is" || tok == "as" || tok == "div" || tok == "mod" || tok == "in" || tok == "contains") && !seen[tok] {
+			seen[tok] = true
+			out = append(out, tok)
+		}
+		tok = ""
+	}
+	for i := 0; i < len(src); i++ {
+		c := src[i]
+		if c == '_' || (c >= 'a' && c <= 'z') || (c >= 'A' && c <= 'Z') {
+			tok += string(c)
+			continue
+		}
+		flush(c)
+		if strings.ContainsRune("+-*/&=<>~|", rune(c)) && !seen[string(c)] {
+			seen[string(c)] = true
+			out = append(out, string(c))
+		}
+	}
+	flush(0)
+	if len(out) > 4 {
+		out = out[:4]
+	}
+	return strings.Join(out, "")
 }
 
 // E evaluates src with no resources and no options.
